@@ -41,8 +41,8 @@ fn main() {
     }
     let seed = std::env::var("VERIF_SEED").ok().and_then(|s| s.parse::<u64>().ok()).unwrap_or(0);
     let budget = std::env::var("VERIF_BUDGET_S").ok().and_then(|s| s.parse::<f64>().ok()).unwrap_or(match tier {
-        Tier::Quick => 40.0,
-        Tier::Thorough => 1800.0,
+        Tier::Quick => 55.0,
+        Tier::Thorough => 3600.0,
     });
     let ctx = Ctx { prop: prop_static, tier, seed, start: std::time::Instant::now(), budget_s: budget };
     let rc = checks::run(&ctx);
